@@ -65,6 +65,15 @@ func SameStr(s string, t Text) bool { return s == string(t.B) }
 // BufIs reports whether the buffer currently holds exactly t.
 func BufIs(buf *bytes.Buffer, t Text) bool { return bytes.Equal(buf.Bytes(), t.B) }
 
+// BufOld is the text the buffer held when the function under contract was entered. Natively it is whatever was
+// recorded with SnapBuf (nothing recorded: empty, which is right for a buffer created empty for the call).
+func BufOld(buf *bytes.Buffer) Text { return Text{bufSnaps[buf]} }
+
+// SnapBuf records the current content of buf as its old text.
+func SnapBuf(buf *bytes.Buffer) { bufSnaps[buf] = append([]byte{}, buf.Bytes()...) }
+
+var bufSnaps = map[*bytes.Buffer][]byte{}
+
 // Shared lists memory that belongs to nobody in particular (package-level
 // buffers); contract files register such buffers from an init function.
 var Shared [][]byte
